@@ -441,6 +441,10 @@ RCP<const Set> Rationals::set_intersection(const RCP<const Set> &o) const
         return o;
     } else if (is_a<FiniteSet>(*o) or is_a<Reals>(*o) or is_a<Complexes>(*o)) {
         return (*o).set_intersection(rcp_from_this_cast<const Set>());
+    } else if (is_a<Interval>(*o)) {
+        // Interval::set_intersection delegates to this function
+        return SymEngine::make_set_intersection(
+            {rcp_from_this_cast<const Set>(), o});
     } else {
         return SymEngine::set_intersection(
             {rcp_from_this_cast<const Set>(), o});
@@ -454,6 +458,9 @@ RCP<const Set> Rationals::set_union(const RCP<const Set> &o) const
         return rationals();
     } else if (is_a<FiniteSet>(*o) or is_a<Reals>(*o) or is_a<Complexes>(*o)) {
         return (*o).set_union(rcp_from_this_cast<const Set>());
+    } else if (is_a<Interval>(*o) or is_a<Union>(*o)) {
+        // Interval::set_union and Union::set_union delegate to this function
+        return SymEngine::make_set_union({rcp_from_this_cast<const Set>(), o});
     } else {
         return SymEngine::set_union({rcp_from_this_cast<const Set>(), o});
     }
